@@ -23,13 +23,15 @@ import (
 
 type OutsideValidityIntervalUtxoError struct {
 	ValidityIntervalStart uint64
+	InvalidHereafter      uint64 // 0 = no upper bound
 	Slot                  uint64
 }
 
 func (e OutsideValidityIntervalUtxoError) Error() string {
 	return fmt.Sprintf(
-		"outside validity interval: start %d, slot %d",
+		"outside validity interval: start %d, invalid hereafter %d, slot %d",
 		e.ValidityIntervalStart,
+		e.InvalidHereafter,
 		e.Slot,
 	)
 }
